@@ -132,10 +132,14 @@ def proof_times(make_out):
     return {"measured_this_run": t, "last_measured": old}
 
 
-def libfunc_ap_cost(ctx, cone):
-    """Compiles Props/C17_libfuncs.v (per-libfunc ap / cost obligations cited by C17 and C04) and
-    returns a summary for the evidence file."""
-    pr = vlib.check_properties_file(ctx, os.path.join(vlib.COQ, "Props/C17_libfuncs.v"), cone)
+def libfunc_ap_cost(ctx, cone=None):
+    """Builds coq/Paths (ApCost.v over GenC03/All.v) and compiles Props/C17_libfuncs.v (per-libfunc ap /
+    cost obligations cited by C17 and C04); returns a summary for the evidence file."""
+    ok, out = vlib.coq_make(ctx, "Paths")
+    if not ok:
+        return {"ok": False, "log": out[-3000:], "theorems": [], "axioms": []}
+    pr = vlib.check_properties_file(ctx, os.path.join(vlib.COQ, "Props/C17_libfuncs.v"), vlib.cone_files("Paths"),
+                                    timeout=900)
     log = pr.get("log", "")
 
     def names(key):
@@ -145,7 +149,8 @@ def libfunc_ap_cost(ctx, cone):
         return re.findall(r'"([^"]*)"', m.group(1))
     cov, unc = names("covered_libfuncs"), names("uncovered_libfuncs")
     gen = lambda l: sorted({x.split("<")[0] for x in l})
-    return {"ok": pr["ok"], "theorems": ["C17_libfunc_ap_exact", "C04_libfunc_steps_bound", "C04_libfunc_cost_bound"],
+    return {"ok": pr["ok"], "log": "" if pr["ok"] else pr.get("log", "")[-3000:],
+            "theorems": ["C17_libfunc_ap_exact", "C04_libfunc_steps_bound", "C04_libfunc_cost_bound"],
             "statements_covered": len(cov), "statements_not_covered": len(unc),
             "libfunc_instantiations_covered": len(set(cov)),
             "generic_libfuncs_covered": gen(cov), "generic_libfuncs_not_covered": gen(unc),
@@ -171,3 +176,124 @@ def run_shards(ctx, case_dir, workers=8, timeout=2400):
     ctx.log("evaluated %d case shards in Coq with <= %d coqc (%.0fs), %d disagree" % (
         len(res), workers, time.time() - t, sum(1 for r in res if not r[1])))
     return res
+
+
+GENZOO = os.path.join(vlib.COQ, "GenZoo")
+
+_ZOO_DIAG = """From Coq Require Import String.
+From Vmx Require Import Range.
+From PathsZoo Require Import ZooCost.
+From GenZoo Require Import Zoo.
+Definition bad_ap := Eval vm_compute in
+  flat_map (fun w : string * code * list stmt_info => let '(n, c, sts) := w in
+    map (fun s => (n, c, stmt_paths c s, si_branches s)) (filter (fun s => negb (stmt_ap_ok c s)) sts)) zoo_programs.
+Definition bad_steps := Eval vm_compute in
+  flat_map (fun w : string * code * list stmt_info => let '(n, c, sts) := w in
+    map (fun s => (n, c, stmt_paths c s, si_branches s))
+        (filter (fun s => plain_cost s && negb (stmt_steps_ok c s)) sts)) zoo_programs.
+Print bad_ap.
+Print bad_steps.
+"""
+
+
+def path_theorems(ctx, sierra_dir, wrappers=True):
+    """Coq side of the libfunc-level premise `branch_dyn` of C17 / C04, over code regenerated from the tree
+    under test on this run: (a) the C03/C06 wrapper set (GenC03/All.v -> Paths/ApCost.v -> Props/C17_libfuncs.v),
+    (b) every invoke statement of the freshly compiled examples / bug samples / instantiation zoo whose Sierra
+    text is in `sierra_dir` as cc_*.sierra (h03 zoo -> GenZoo/Zoo.v -> PathsZoo/ZooCost.v -> Props/C17_zoo.v).
+    Records counts under ctx.cov["libfunc_path_theorems"]; reports a violation when a theorem no longer checks,
+    with the offending statements (libfunc, emitted CASM, declared data) as the failing input."""
+    cov = {"ok": False}
+    ctx.cov["libfunc_path_theorems"] = cov
+    ok_build, _ = vlib.cargo_build(ctx, "h03")
+    if not ok_build:
+        ctx.violation("harness h03 (translator of the libfunc path theorems) does not build against the tree under test",
+                      {"theorem_or_correspondence": "Props/C17_libfuncs.v, Props/C17_zoo.v (h03 build)"}, found_input=False)
+        return cov
+    if wrappers:
+        gen = translate(ctx)
+        if not gen["ok"]:
+            ctx.violation("translator failed: a wrapper no longer compiles with the compiler under test",
+                          {"theorem_or_correspondence": "translator", "detail": gen.get("errors")}, found_input=False)
+        else:
+            w = libfunc_ap_cost(ctx)
+            cov["wrappers"] = {k: v for k, v in w.items() if k != "log"}
+            if not w["ok"]:
+                ctx.violation("per-libfunc ap / cost theorems over the wrapper set no longer check "
+                              "(Props/C17_libfuncs.v): emitted CASM contradicts the declared ApChange / Const cost",
+                              {"theorem_or_correspondence": "C17_libfunc_ap_exact / C04_libfunc_steps_bound / "
+                               "C04_libfunc_cost_bound", "detail": w.get("log")}, found_input=False)
+    out = os.path.join(ctx.out, "zoo-%d" % os.getpid())
+    os.makedirs(out, exist_ok=True)
+    n_sierra = len([f for f in os.listdir(sierra_dir) if f.startswith("cc_") and f.endswith(".sierra")]) \
+        if os.path.isdir(sierra_dir) else 0
+    if n_sierra == 0:
+        ctx.violation("no freshly compiled Sierra (cc_*.sierra) found for the zoo path theorems in %s" % sierra_dir,
+                      {"theorem_or_correspondence": "Props/C17_zoo.v (input missing)"}, found_input=False)
+        return cov
+    rc, log = h03(ctx, ["zoo", sierra_dir, out], timeout=1200)
+    zj = os.path.join(out, "zoo.json")
+    if rc != 0 or not os.path.exists(zj):
+        ctx.violation("h03 zoo failed to run", {"output": log[-2000:]}, found_input=False)
+        return cov
+    zs = json.load(open(zj))
+    os.makedirs(GENZOO, exist_ok=True)
+    with open(os.path.join(GENZOO, ".sync.lock"), "w") as lk:
+        fcntl.flock(lk, fcntl.LOCK_EX)
+        deps = os.path.join(GENZOO, "DEPS")
+        if not os.path.exists(deps) or open(deps).read() != "Vmx\n":
+            open(deps, "w").write("Vmx\n")
+        src = open(os.path.join(out, "Zoo.v")).read()
+        dst = os.path.join(GENZOO, "Zoo.v")
+        rewritten = not os.path.exists(dst) or open(dst).read() != src
+        if rewritten:      # content-addressed cache: make rebuilds only when the table changed
+            open(dst, "w").write(src)
+    ok_make, make_out = vlib.coq_make(ctx, "PathsZoo")
+    pr = vlib.check_properties_file(ctx, os.path.join(vlib.COQ, "Props/C17_zoo.v"), vlib.cone_files("PathsZoo"),
+                                    timeout=900) if ok_make else None
+    ok = bool(pr and pr["ok"])
+    zlog = (pr or {}).get("log", "")
+
+    def names(key):
+        m = re.search(key + r" =\s*\[(.*?)\]\s*:\s*list string", zlog, re.S)
+        return re.findall(r'"([^"]*)"', m.group(1)) if m else []
+    covd, unc = names("zoo_covered_libfuncs"), names("zoo_uncovered_libfuncs")
+    gen_ = lambda l: sorted({x.split("<")[0] for x in l})
+    mp = re.search(r"zoo_paths_total = (\d+)", zlog)
+    cov.update({
+        "ok": ok and (not wrappers or cov.get("wrappers", {}).get("ok", False)),
+        "zoo": {
+            "ok": ok, "theorems": ["C17_zoo_ap_exact", "C04_zoo_steps_bound"],
+            "programs": zs.get("programs"), "programs_not_translated": zs.get("not_compiled"),
+            "invoke_statements": zs.get("statements"), "distinct_obligations": zs.get("distinct_obligations"),
+            "generic_libfuncs": zs.get("generic_libfuncs"),
+            "obligations_with_builtin_cost_tokens": zs.get("obligations_with_builtin_cost_tokens"),
+            "obligations_covered": len(covd), "obligations_not_covered": len(unc),
+            "paths_enumerated": int(mp.group(1)) if mp else None,
+            "generic_libfuncs_not_covered": gen_(unc), "generic_libfuncs_covered": len(gen_(covd)),
+            "table_rewritten_this_run": rewritten, "axioms": (pr or {}).get("axioms", []),
+            "dedup_rule": "one obligation per (generic libfunc, control skeleton of the emitted CASM: kinds, sizes, "
+                          "ap++, jump / ap+= immediates, failing-assert and double-deref shapes, declared branch "
+                          "data incl. relative target offsets); statements containing call/ret: one per generic libfunc",
+        }})
+    if not ok:
+        # which statements: evaluate the table without the theorems
+        detail = (make_out + zlog)[-2500:]
+        bad = ""
+        if os.path.exists(os.path.join(GENZOO, "Zoo.vo")):
+            dp = os.path.join(out, "ZooDiag.v")
+            open(dp, "w").write(_ZOO_DIAG)
+            rc2, o2 = vlib.coqc_file(dp, timeout=900)
+            bad = o2[:6000]
+        found = "bad_ap" in bad and not re.search(r"bad_ap =\s*\[\]", bad) or \
+                ("bad_steps" in bad and not re.search(r"bad_steps =\s*\[\]", bad))
+        ctx.violation(
+            "libfunc-level premise of C17/C04 fails on freshly compiled code: a statement's emitted CASM moves ap "
+            "differently from its declared ApChange::Known or executes more steps than its declared Const cost "
+            "(Props/C17_zoo.v no longer checks)",
+            {"theorem_or_correspondence": "C17_zoo_ap_exact / C04_zoo_steps_bound", "offending_statements": bad,
+             "detail": detail, "replay_cmd": "./check %s --tier %s" % (ctx.pid, ctx.tier)}, found_input=bool(found))
+    else:
+        import shutil
+        shutil.rmtree(out, ignore_errors=True)
+    return cov
